@@ -118,7 +118,23 @@ where
 
     let shard = self.shared.store.get_shard(&key_for_event);
 
-    self.shard_guard.insert(self.key, new_cache_entry);
+    // entry() reports an expired, not yet collected entry as Vacant: account for the
+    // entry this insert replaces exactly like Cache::insert does.
+    if let Some(old_entry) = self.shard_guard.insert(self.key, new_cache_entry) {
+      if let Some(wheel) = &shard.timer_wheel {
+        if let Some(handle) = &old_entry.ttl_timer_handle {
+          wheel.cancel(handle);
+        }
+        if let Some(handle) = &old_entry.tti_timer_handle {
+          wheel.cancel(handle);
+        }
+      }
+      self
+        .shared
+        .metrics
+        .current_cost
+        .fetch_sub(old_entry.cost(), std::sync::atomic::Ordering::Relaxed);
+    }
     drop(self.shard_guard);
 
     let _ = shard
